@@ -130,10 +130,12 @@ def run_case(c):
         tp = tproj(t)
         notes = c["notes"]
         md = c["maxdist"]
-        r = call("find_fingering", {"notes": notes, "maxdist": md},
-                 lambda: [[[integer(s), integer(f)] for (s, f) in fg] for fg in t.find_fingering([Note().from_int(p) for p in notes], md)])
-        r["tuning"] = tp
-        R.append(r)
+        # the same notes with a narrower span first, then the asked one, then a wider one (each question has its own answer)
+        for md2, why in ((2, "narrower first"), (md, ""), (md + 3, "wider afterwards")):
+            r = call("find_fingering", dict({"notes": notes, "maxdist": md2}, **({"asked": why} if why else {})),
+                     lambda: [[[integer(s), integer(f)] for (s, f) in fg] for fg in t.find_fingering([Note().from_int(p) for p in notes], md2)])
+            r["tuning"] = tp
+            R.append(r)
     elif k == "chord":
         t = T[c["ti"] % len(T)]
         tp = tproj(t)
@@ -218,6 +220,18 @@ def run_case(c):
                         r["tab"] = r["out"] if r["ok"] else {"blocks": []}
                         r["out"] = 0
                         R.append(r)
+            # one and the same composition tabbed for the six strings of the guitar first and for the four of the bass afterwards
+            comp4 = mk_composition(p)
+            try:
+                tablature.from_Track(comp4.tracks[0], w + 20, tun)
+            except Exception:
+                pass
+            r = call("tab_Track", {"track": 1, "width": w, "tuning_via": "none", "tuning_named_in_the_call": "argument", "tabbed_before_for": "the guitar"},
+                     lambda: lex_tab(tablature.from_Track(comp4.tracks[0], w + 20, bass), tproj(bass)["strings"]))
+            r["prog"], r["tuning"] = p, tproj(bass)
+            r["tab"] = r["out"] if r["ok"] else {"blocks": []}
+            r["out"] = 0
+            R.append(r)
             # and the other way round: a track without a tuning of its own, the bass tuning named in the call
             r = call("tab_Track", {"track": 1, "width": w, "tuning_via": "none", "tuning_named_in_the_call": "argument"},
                      lambda: lex_tab(tablature.from_Track(comp.tracks[0], w + 20, bass), tproj(bass)["strings"]))
